@@ -20,7 +20,7 @@ from collections import deque
 
 from . import tm
 from .driver import Accounting, Suspend, Task
-from .instruments import Cancelled, Item
+from .instruments import Cancelled, InjectedError, Item
 from .report import Verdict
 from .tlc import MachineryError, read_ndjson, run_tlc
 from .tracecheck import validate
@@ -29,9 +29,13 @@ from .tracecheck import validate
 
 
 class TeeSys:
-    def __init__(self, L, n, srclen, susp, uselock, census=False):
+    def __init__(self, L, n, srclen, susp, uselock, exitsusp=0, closable=True, census=False):
         self.L = L
         self.n, self.srclen, self.susp, self.uselock = n, srclen, susp, uselock
+        self.exitsusp = exitsusp
+        self.closable = closable
+        self.fail_next = False
+        self.fail_exc = None
         self.acct = Accounting()
         self.trace = []
         self.current = 0
@@ -58,6 +62,10 @@ class TeeSys:
                 try:
                     for j in range(sys_.susp):
                         await Suspend(sys_.acct, ("src", c, j))
+                    if sys_.fail_next:
+                        sys_.fail_next = False
+                        sys_.fail_exc = InjectedError("source failed")
+                        raise sys_.fail_exc
                     if sys_.pos >= len(sys_.items):
                         raise StopAsyncIteration
                     sys_.pos += 1
@@ -69,6 +77,7 @@ class TeeSys:
                     sys_.inside.discard(c)
                     sys_.ev(e="leave", c=c)
 
+        class ClosableSource(Source):
             async def aclose(self):
                 sys_.src_closes += 1
                 sys_._pending_close += 1
@@ -82,10 +91,13 @@ class TeeSys:
                 sys_.holder = c
 
             async def __aexit__(self, *exc):
+                c = sys_.current
                 sys_.holder = 0
+                if sys_.exitsusp:
+                    await Suspend(sys_.acct, ("lockexit", c))
                 return None
 
-        self.source = Source()
+        self.source = ClosableSource() if closable else Source()
         self.lock = Lock() if uselock else None
         self.tee = L.tee(self.source, n=n, lock=self.lock) if uselock else L.tee(self.source, n=n)
         self.children = list(self.tee)
@@ -114,6 +126,8 @@ class TeeSys:
                 self.cs[c] = "lockwait"
             elif isinstance(tag, tuple) and tag[0] == "src":
                 self.cs[c] = "insrc"
+            elif isinstance(tag, tuple) and tag[0] == "lockexit":
+                self.cs[c] = "exiting"
             else:
                 self.cs[c] = "foreign"
         elif r[0] == "done":
@@ -132,6 +146,9 @@ class TeeSys:
             elif isinstance(exc, Cancelled):
                 self.ev(e="cancelled", c=c)
                 self.cs[c] = "cancelled"
+            elif isinstance(exc, InjectedError):
+                self.ev(e="failed", c=c, same=exc is self.fail_exc)
+                self.cs[c] = "failed"
             else:
                 self.ev(e="error", c=c, what=type(exc).__name__)
                 self.cs[c] = "error"
@@ -146,14 +163,18 @@ class TeeSys:
             return s == "lockwait" and not self.holder
         if a == "tick":
             return s == "insrc"
+        if a == "exit":
+            return s == "exiting"
+        if a == "fail":
+            return s == "insrc"
         if a == "close":
             return s in ("unstarted", "idle")
         if a == "cancel":
-            return s in ("lockwait", "insrc")
+            return s in ("lockwait", "insrc", "exiting")
         return False
 
     def can_closeall(self):
-        return all(s not in ("lockwait", "insrc", "foreign") for s in self.cs.values()) and \
+        return all(s not in ("lockwait", "insrc", "exiting", "foreign") for s in self.cs.values()) and \
             any(s in ("unstarted", "idle") for s in self.cs.values())
 
     def closeall(self):
@@ -174,10 +195,14 @@ class TeeSys:
             t = Task(self.children[c - 1].__anext__(), self.acct)
             self.task[c] = t
             self._after(c, t.step())
-        elif a in ("grant", "tick"):
+        elif a in ("grant", "tick", "exit"):
             self._after(c, self.task[c].step())
         elif a == "cancel":
             self._after(c, self.task[c].throw(Cancelled("cancel")))
+        elif a == "fail":
+            self.fail_next = True
+            self._after(c, self.task[c].step())
+            self.fail_next = False
         elif a == "close":
             started = self.ever_started[c]
             r = Task(self.children[c - 1].aclose(), self.acct).run()
@@ -219,10 +244,10 @@ class TeeSys:
             if guard > 10000:
                 self.ev(e="error", c=0, what="no-quiescence")
                 return
-            busy = [c for c in self.cs if self.cs[c] in ("insrc", "lockwait", "foreign")]
+            busy = [c for c in self.cs if self.cs[c] in ("insrc", "lockwait", "exiting", "foreign")]
             prog = False
             for c in busy:
-                if self.cs[c] in ("insrc", "foreign"):
+                if self.cs[c] in ("insrc", "exiting", "foreign"):
                     self.current = c
                     self._after(c, self.task[c].step())
                     prog = True
@@ -248,7 +273,8 @@ class TeeSys:
         self.ev(e="quiesce")
 
     def cfg(self):
-        return {"n": self.n, "len": self.srclen, "lock": bool(self.uselock), "susp": self.susp}
+        return {"n": self.n, "len": self.srclen, "lock": bool(self.uselock), "susp": self.susp, "exitsusp": self.exitsusp,
+                "closable": bool(self.closable)}
 
 
 # --------------------------------------------------------------------------- TLC side
@@ -260,14 +286,17 @@ DEMAND_INVS = INVS + ["Retention", "CloseOnce"]
 HANDLE_SWEEPS = True  # mirrors Tee.aclose() of the code (named deviation, see DESIGN.md / known_findings.json)
 
 
-def cfg_text(n, srclen, susp, uselock, leaks, edges=True, cancel=True, close=True, invs=INVS, sweeps=None):
+def cfg_text(n, srclen, susp, uselock, exitsusp, leaks, edges=True, cancel=True, close=True, invs=INVS, sweeps=None, fail=True, closable=True):
     b = lambda x: "TRUE" if x else "FALSE"  # noqa: E731
     out = f"""CONSTANTS
   NChild = {n}
   SrcLen = {srclen}
   Susp = {susp}
   UseLock = {b(uselock)}
+  ExitSusp = {exitsusp}
   AllowCancel = {b(cancel)}
+  AllowFail = {b(fail)}
+  Closable = {b(closable)}
   AllowClose = {b(close)}
   UnstartedCloseLeaks = {b(leaks)}
   HandleSweeps = {b(HANDLE_SWEEPS if sweeps is None else sweeps)}
@@ -285,9 +314,13 @@ CHECK_DEADLOCK FALSE
 
 TIERS = {
     # (NChild, SrcLen, Susp, UseLock)
-    "quick": [(2, 2, 1, True), (3, 2, 1, True), (2, 2, 0, False), (3, 2, 0, False)],
-    "thorough": [(2, 3, 2, True), (3, 3, 2, True), (3, 3, 1, True), (4, 2, 1, True), (2, 4, 2, True),
-                 (3, 3, 0, False), (4, 3, 0, False), (3, 3, 0, True)],
+    # (NChild, SrcLen, Susp, UseLock, ExitSusp)
+    # ... Closable)
+    "quick": [(2, 2, 1, True, 0, True), (3, 2, 1, True, 0, True), (2, 2, 1, True, 1, True), (2, 2, 1, True, 0, False),
+              (3, 1, 0, True, 1, True), (2, 2, 0, False, 0, True), (3, 2, 0, False, 0, True)],
+    "thorough": [(2, 3, 2, True, 0, True), (3, 3, 2, True, 0, True), (3, 3, 1, True, 1, True), (3, 2, 2, True, 1, False),
+                 (4, 2, 1, True, 0, True), (2, 4, 2, True, 1, True), (3, 2, 1, True, 0, False),
+                 (3, 3, 0, False, 0, True), (4, 3, 0, False, 0, True), (3, 3, 0, True, 1, True)],
 }
 
 
@@ -297,7 +330,7 @@ def key(st):
 
 def norm_model(t):
     """Model projection in the shape of TeeSys.project()."""
-    out = {"cs": list(t["cs"]), "recv": [list(x) for x in t["recv"]], "p": t["p"], "busy": sorted(t["busy"]),
+    out = {"cs": ["exiting" if x in ("exitstop", "exitcancel", "exitfail") else x for x in t["cs"]], "recv": [list(x) for x in t["recv"]], "p": t["p"], "busy": sorted(t["busy"]),
            "closed": t["closed"], "l": t["l"]}
     return out
 
@@ -338,9 +371,9 @@ def build_paths(edges):
 
 
 def replay_path(args):
-    (n, srclen, susp, uselock), path, census = args
+    (n, srclen, susp, uselock, exitsusp, closable), path, census = args
     L = tm.load_lib()
-    sysm = TeeSys(L, n, srclen, susp, uselock)
+    sysm = TeeSys(L, n, srclen, susp, uselock, exitsusp, closable)
     drift = None
     for j, e in enumerate(path):
         a, c = e["a"][0], e["a"][1]
@@ -384,15 +417,16 @@ def replay_path(args):
 
 def random_run(args):
     """A seeded random schedule on constants beyond the exhaustive bounds."""
-    seed, n, srclen, susp, uselock = args
+    seed, n, srclen, susp, uselock, exitsusp, closable = args
     rnd = random.Random(seed)
     L = tm.load_lib()
-    sysm = TeeSys(L, n, srclen, susp, uselock)
+    sysm = TeeSys(L, n, srclen, susp, uselock, exitsusp, closable)
+    failed = False
     steps = []
     for _ in range(rnd.randint(5, 12 * n + 4 * srclen)):
         opts = []
         for c in range(1, n + 1):
-            for a, w in (("anext", 6), ("grant", 6), ("tick", 8), ("close", 1), ("cancel", 1)):
+            for a, w in (("anext", 6), ("grant", 6), ("tick", 8), ("exit", 8), ("close", 1), ("cancel", 1)):
                 if sysm.can(a, c):
                     opts += [(a, c)] * w
         if not opts:
@@ -402,6 +436,8 @@ def random_run(args):
             steps.append(["closeall", 0])
             continue
         a, c = rnd.choice(opts)
+        if a == "tick" and not failed and rnd.random() < 0.04:
+            a, failed = "fail", True
         sysm.apply(a, c)
         steps.append([a, c])
         if rnd.random() < 0.15:
@@ -433,19 +469,19 @@ def check(prop, tier, seed):
            "validated": 0, "random_traces": 0, "demand_model_states": 0}
     rnd = random.Random(seed)
     alltraces = []
-    for (n, srclen, susp, uselock) in TIERS[tier]:
+    for (n, srclen, susp, uselock, exitsusp, closable) in TIERS[tier]:
         # 1. the code-shaped model (UnstartedCloseLeaks = TRUE) with the invariants it can satisfy
-        res = run_tlc("Tee", cfg_text(n, srclen, susp, uselock, True), outfiles=["edges.ndjson"], timeout=3000)
+        res = run_tlc("Tee", cfg_text(n, srclen, susp, uselock, exitsusp, True, closable=closable), outfiles=["edges.ndjson"], timeout=3000)
         tot["states"] += res["distinct"]
         tot["transitions"] += res["generated"]
         edges = read_ndjson(res["files"]["edges.ndjson"])
         tot["edges"] += len(edges)
         # 2. the demanded design (UnstartedCloseLeaks = FALSE) satisfies every sentence of C09
-        res2 = run_tlc("Tee", cfg_text(n, srclen, susp, uselock, False, edges=False, invs=DEMAND_INVS, sweeps=True), timeout=3000)
+        res2 = run_tlc("Tee", cfg_text(n, srclen, susp, uselock, exitsusp, False, edges=False, invs=DEMAND_INVS, sweeps=True, closable=closable), timeout=3000)
         tot["demand_model_states"] += res2["distinct"]
         paths = build_paths(edges)
         tot["paths"] += len(paths)
-        jobs = [((n, srclen, susp, uselock), p, False) for p in paths]
+        jobs = [((n, srclen, susp, uselock, exitsusp, closable), p, False) for p in paths]
         with mp.Pool(min(16, os.cpu_count() or 4)) as pool:
             results = pool.map(replay_path, jobs, chunksize=max(1, len(jobs) // 128))
         drifted = [r for r in results if r["drift"]]
@@ -457,7 +493,7 @@ def check(prop, tier, seed):
             if not r["acct_ok"]:
                 v.violation(f"{prop}/tee/foreign-suspension", {"engine": "tee", "path": r["path"], "cfg": r["cfg"]})
     # 3. negative control: outside the premise (no lock, suspending source) the model must fail
-    neg = run_tlc("Tee", cfg_text(3, 2, 1, False, False, edges=False, invs=["Complete"]), expect_violation=True, timeout=600)
+    neg = run_tlc("Tee", cfg_text(3, 2, 1, False, 0, False, edges=False, invs=["Complete"]), expect_violation=True, timeout=600)
     if neg["ok"]:
         raise MachineryError("vacuity guard: Tee without lock and with a suspending source satisfies Complete")
     # 4. random schedules beyond the exhaustive bounds
@@ -466,7 +502,8 @@ def check(prop, tier, seed):
     for i in range(nrand):
         n = rnd.choice([2, 3, 4, 5])
         uselock = rnd.random() < 0.7
-        rjobs.append((seed * 1000003 + i, n, rnd.randint(0, 8), rnd.choice([1, 2, 3]) if uselock else 0, uselock))
+        rjobs.append((seed * 1000003 + i, n, rnd.randint(0, 8), rnd.choice([0, 1, 2, 3]) if uselock else 0, uselock,
+                      rnd.choice([0, 1]) if uselock else 0, rnd.random() < 0.8))
     with mp.Pool(min(16, os.cpu_count() or 4)) as pool:
         rres = pool.map(random_run, rjobs, chunksize=64)
     tot["random_traces"] = len(rres)
